@@ -821,9 +821,12 @@ _BTree_set(BTree *self, PyObject *keyarg, PyObject *value,
             toobig = childlength > max_size;
         }
         if (toobig) {
+            /* BTree_grow mutates self -- also when it fails late (e.g. in
+            * BTree_split_root, after the new child was inserted).
+            */
+            changed = 1;
             if (BTree_grow(self, min, noval) < 0)
                 goto Error;
-            changed = 1;        /* BTree_grow mutated self */
         }
         goto Done;      /* and status still == 1 */
     }
@@ -1005,6 +1008,21 @@ Done:
 
 Error:
     assert(PyErr_Occurred());
+#ifdef PERSISTENT
+    if (changed && !self_was_empty)
+    {
+        /* What was done before the failure (an entry that went into the
+        * embedded leaf, a new firstbucket, a child that was inserted) stays
+        * done and must be announced like any other change; otherwise commit
+        * does not write it and abort does not undo it.
+        */
+        PyObject *et, *ev, *etb;
+        PyErr_Fetch(&et, &ev, &etb);
+        if (PER_CHANGED(self) < 0)
+            PyErr_Clear();
+        PyErr_Restore(et, ev, etb);
+    }
+#endif
     if (self_was_empty)
     {
         VERIF_PROBE(12);
